@@ -39,20 +39,25 @@ def check_C20(o, tier):
         "(request, answer) pairs in which a callback ran, an entry was removed or a window was open.")
     mc = 1000000 if quick else 10000000
     runs = [
-        ("cache-random", "gen", {"VERIF_SEED": o.seed, "VERIF_N": 1500 if quick else 60000, "VERIF_MINCOUNT": mc}),
-        ("cache-window", "win", {"VERIF_SEED": o.seed, "VERIF_N": 1500 if quick else 60000}),
-        ("cache-enum", "enum", {"VERIF_DEPTH": 3 if quick else 5, "VERIF_ALPHABET": "seq"}),
-        ("cache-enum-window", "enum", {"VERIF_DEPTH": 4 if quick else 6, "VERIF_ALPHABET": "window"}),
-        ("cache-enum-windowall", "enum", {"VERIF_DEPTH": 4 if quick else 7, "VERIF_ALPHABET": "windowall"}),
+        ("cache-random", "gen", {"VERIF_SEED": o.seed, "VERIF_N": 6000 if quick else 150000, "VERIF_MINCOUNT": mc,
+                                 "VERIF_TIMER": "20,35" if quick else "20,35,50,80,120"}),
+        ("cache-window", "win", {"VERIF_SEED": o.seed, "VERIF_N": 6000 if quick else 150000}),
+        ("cache-enum", "enum", {"VERIF_DEPTH": 4 if quick else 5, "VERIF_ALPHABET": "seq"}),
+        ("cache-enum-window", "enum", {"VERIF_DEPTH": 4 if quick else 5, "VERIF_ALPHABET": "window"}),
+        ("cache-enum-windowall", "enum", {"VERIF_DEPTH": 5 if quick else 6, "VERIF_ALPHABET": "windowall"}),
     ]
     for label, mode, params in runs:
-        check_profile(o, prof, mode, params, label, C20_MONITORS, nontrivial=_nontrivial)
+        check_profile(o, prof, mode, params, label, C20_MONITORS, nontrivial=_nontrivial,
+                      keep=lambda l: l.startswith("NEW"))
     # validation: int(float64(Count)*0.9) == 9*Count/10 for every Count up to mc (monitor line of the first stream)
     import os
     monp = os.path.join(prof.paths("cache-random")["mon"])
     bad = [l for l in core.read_lines(monp) if " mincount-float " in l] if os.path.exists(monp) else ["no monitor file"]
     o.add_obligation(not bad, "validation: minCount float expression equals integer arithmetic for Count <= %d %s" % (mc, bad[:1]))
     o.notes["mincount_validated_up_to"] = mc
+    # validation: the real timer fired for the TIMER requests (lateness is not judged, a timer that never fires is reported)
+    late = [l for l in core.read_lines(monp) if " timer-not-fired " in l] if os.path.exists(monp) else []
+    o.add_obligation(not late, "validation: the age timer of a real cache fires and prunes %s" % late[:1])
     o.cov["exhaustive"] = False
     prof.cleanup()
 
